@@ -201,6 +201,20 @@ func C09(r *vf.Run) {
 		if !bytes.Equal(img, orig) {
 			r.Fail("read-modifies-image", "ReadHeader changed the image", vf.Hex(raw))
 		}
+		// the same header parsed from one reader over the whole image, positioned at the header
+		{
+			rd := bytes.NewReader(img)
+			_, _ = rd.Seek(0x7FB0, 0)
+			var h3 snes.Header
+			if err := h3.ReadHeader(rd); err != nil {
+				r.Fail("seeked-reader-error", fmt.Sprintf("Header.ReadHeader on a reader positioned at $7FB0: %v", err), vf.Hex(raw))
+			} else if d := diffFields(want, flattenHeader(&h3)); len(d) > 0 || h3.HeaderVersion() != ver {
+				r.Fail("seeked-reader-differs", fmt.Sprintf("v%d header parsed from a reader over the whole image positioned at $7FB0: version %d, fields %v differ from the offset table", ver, h3.HeaderVersion(), d), vf.Hex(raw))
+			}
+			if pos, _ := rd.Seek(0, 1); pos != 0x8000 {
+				r.Fail("seeked-reader-consumes", fmt.Sprintf("ReadHeader consumed %d bytes, the header is 80 bytes long", pos-0x7FB0), vf.Hex(raw))
+			}
+		}
 		// ReadHeader; WriteHeader leaves the image unchanged
 		if err := rom.WriteHeader(); err != nil {
 			r.Fail("writeheader-error", fmt.Sprintf("WriteHeader: %v", err), vf.Hex(raw))
